@@ -426,6 +426,9 @@ func genC03(run *Run) []*Spec {
 			sp.StatusCodes = []int{503}
 		}
 		if r.Intn(3) == 0 {
+			sp.Flavour = "http"
+		}
+		if r.Intn(3) == 0 {
 			sp.MaxRetries = 1 + r.Intn(2)
 		}
 		for k := 0; k < 4; k++ {
